@@ -8,6 +8,10 @@ import (
 	"time"
 )
 
+// memoryPollInterval is how often a waiting Dequeue looks for messages that
+// became due without a wake-up signal (same value as the SQLite store).
+const memoryPollInterval = 25 * time.Millisecond
+
 var (
 	ErrLeaseNotFound  = errors.New("lease not found")
 	ErrLeaseExpired   = errors.New("lease expired")
@@ -680,7 +684,14 @@ func (s *MemoryStore) Dequeue(req DequeueRequest) (DequeueResponse, error) {
 			return DequeueResponse{}, nil
 		}
 
-		timer := time.NewTimer(remaining)
+		// Messages also become due without a signal (a lease expires, a nack
+		// delay or next_run_at is reached), so re-check periodically like the
+		// SQLite store instead of sleeping until the deadline.
+		sleep := remaining
+		if sleep > memoryPollInterval {
+			sleep = memoryPollInterval
+		}
+		timer := time.NewTimer(sleep)
 		select {
 		case <-waitCh:
 			if !timer.Stop() {
@@ -688,7 +699,7 @@ func (s *MemoryStore) Dequeue(req DequeueRequest) (DequeueResponse, error) {
 			}
 			continue
 		case <-timer.C:
-			return DequeueResponse{}, nil
+			continue
 		}
 	}
 }
